@@ -45,7 +45,7 @@ WrapE(c, e) ==
     [] c.k = "iter"  -> For("", "v", e, <<Text(<<"i">>)>>)
 
 SCs == {"foriter", "formap", "foriterif", "emit", "silent", "let", "assign", "ifbody", "elsebody", "forbody", "forsilent", "forsecond", "fnbody", "fnreturn",
-        "blk", "blkown", "contentfor", "contentofdefault", "partial", "layout", "partialdata", "nestedpartial"}
+        "blk", "blkown", "contentfor", "contentofdefault", "partial", "layout", "partialdata", "nestedpartial", "laidpartial", "laidnested"}
 
 PName(s) == s
 WrapS(c, e) ==
@@ -72,6 +72,12 @@ WrapS(c, e) ==
                                parts |-> [q |-> <<Text(<<"o">>), Emit(Call("partial", <<Str(<<"p">>)>>))>>, p |-> <<Text(<<"a">>), Code(e)>>]]
     [] c = "layout"    -> [prog |-> <<Emit(Call("partial", <<Str(<<"p">>), Hash(<<"layout">>, <<Str(<<"l">>)>>)>>))>>,
                            parts |-> [p |-> <<Text(<<"a">>)>>, l |-> <<Text(<<"[">>), Emit(Id("yield")), Emit(e), Text(<<"]">>)>>]]
+    \* the fault is in the partial that is then wrapped in a layout (the layout itself is fine), directly and one partial deeper
+    [] c = "laidpartial" -> [prog |-> <<Emit(Call("partial", <<Str(<<"p">>), Hash(<<"layout">>, <<Str(<<"l">>)>>)>>))>>,
+                           parts |-> [p |-> <<Text(<<"a">>), Emit(e)>>, l |-> <<Text(<<"[">>), Emit(Id("yield")), Text(<<"]">>)>>]]
+    [] c = "laidnested" -> [prog |-> <<Emit(Call("partial", <<Str(<<"q">>), Hash(<<"layout">>, <<Str(<<"l">>)>>)>>))>>,
+                           parts |-> [q |-> <<Text(<<"o">>), Emit(Call("partial", <<Str(<<"p">>)>>))>>, p |-> <<Text(<<"a">>), Code(e)>>,
+                                      l |-> <<Text(<<"[">>), Emit(Id("yield")), Text(<<"]">>)>>]]
     [] c = "partialdata" -> [prog |-> <<Emit(Call("partial", <<Str(<<"p">>), Hash(<<"a">>, <<e>>)>>))>>, parts |-> [p |-> <<Text(<<"a">>)>>]]
 
 Data == [xs |-> A(<<I(1), I(2)>>)]
